@@ -53,6 +53,33 @@ TBig == /\ l <= Len(TraceLog) /\ Ev.e = "big"
         /\ UNCHANGED vars
         /\ l' = l + 1
 
+\* sizes beyond 2^31: wide values are little-endian base-2^15 digit sequences (canonical: no leading zero digit, zero = <<>>)
+B15 == 32768
+RECURSIVE MulCarry(_, _, _, _)
+MulCarry(a, m, i, carry) == IF i > Len(a) THEN (IF carry = 0 THEN <<>> ELSE IF carry < B15 THEN <<carry>> ELSE <<carry % B15, carry \div B15>>)
+                            ELSE LET t == a[i] * m + carry IN <<t % B15>> \o MulCarry(a, m, i + 1, t \div B15)
+RECURSIVE Strip(_)
+Strip(a) == IF a # <<>> /\ a[Len(a)] = 0 THEN Strip(SubSeq(a, 1, Len(a) - 1)) ELSE a
+MulSmall(a, m) == Strip(MulCarry(a, m, 1, 0))              \* m < 2^15
+RECURSIVE AddCarry(_, _, _, _)
+AddCarry(a, b, i, carry) == IF i > Len(a) /\ i > Len(b) THEN (IF carry = 0 THEN <<>> ELSE <<carry>>)
+                            ELSE LET t == (IF i <= Len(a) THEN a[i] ELSE 0) + (IF i <= Len(b) THEN b[i] ELSE 0) + carry IN <<t % B15>> \o AddCarry(a, b, i + 1, t \div B15)
+BigAdd(a, b) == Strip(AddCarry(a, b, 1, 0))
+RECURSIVE WideStrides(_, _)
+WideStrides(s, i) == IF i = Len(s) THEN <<<<1>>>> ELSE LET rest == WideStrides(s, i + 1) IN <<MulSmall(rest[1], s[i + 1])>> \o rest       \* strides of axes i..d
+RECURSIVE WideDot(_, _, _)
+WideDot(ix, st, i) == IF i > Len(ix) THEN <<>> ELSE BigAdd(MulSmall(st[i], ix[i]), WideDot(ix, st, i + 1))
+\* idx inside the shape and sum idx[i] * stride[i] = k characterise idx = unravel(k) (mixed-radix representation is unique)
+TWide == /\ l <= Len(TraceLog) /\ Ev.e = "wide"
+         /\ LET st == WideStrides(Ev.shape, 1)
+                exp == [strides |-> st, prod |-> MulSmall(st[1], Ev.shape[1])]
+                good == /\ Ev.strides = st /\ Ev.prod = exp.prod
+                        /\ InBox(Ev.idx, Ev.shape) /\ WideDot(Ev.idx, st, 1) = Ev.k
+                        /\ Ev.idx2 = Ev.idx /\ Ev.off = Ev.k
+            IN bad' = IF good THEN bad ELSE Note("wide", exp)
+         /\ UNCHANGED vars
+         /\ l' = l + 1
+
 TFinish == /\ l = Len(TraceLog) + 1
            /\ ndJsonSerialize(IOEnv.OUT, bad)
            /\ l' = l + 1
@@ -64,7 +91,7 @@ TCrash == /\ l <= Len(TraceLog) /\ Ev.e = "crash"
           /\ UNCHANGED vars
           /\ l' = l + 1
 
-TNext == TBegin \/ TStep \/ TEnd \/ TBig \/ TCrash \/ TFinish
+TNext == TBegin \/ TStep \/ TEnd \/ TBig \/ TWide \/ TCrash \/ TFinish
 TraceSpec == TInit /\ [][TNext]_tvars
 
 \* the addressing invariants are evaluated in every state of the validated behaviour as well
